@@ -467,14 +467,17 @@ fn eval_c14(case: &PrimalCase, obs: &mut CaseObs) -> Verdict {
     // (b) set_primal replaces the incumbent only when strictly greater (observed through a run cut at its first poll)
     if let Some((off2, idx2)) = case.second {
         if let Some(p2) = witness(&o, t, &sols, off2, idx2) {
-            let out = run_table(t, &o, &case.solve.cfg, &RunOpts { primals: vec![p1.clone(), p2.clone()], fire_at: Some(1), ..Default::default() });
-            if out.panic.is_some() {
-                return Verdict::Fail(format!("panic: {:?}", out.panic));
-            }
-            let expect = if p2.0 > p1.0 { &p2 } else { &p1 };
             obs.label(if p2.0 > p1.0 { "second-primal:greater" } else if p2.0 == p1.0 { "second-primal:equal" } else { "second-primal:smaller" });
-            if out.best_value != Some(expect.0) || out.best_solution.as_ref().map(|s| sorted(s.clone())) != Some(sorted(expect.1.clone())) {
-                return Verdict::Fail(format!("set_primal({}, s1) then set_primal({}, s2): incumbent is ({:?}, {:?}) but should be ({}, {:?})", p1.0, p2.0, out.best_value, out.best_solution, expect.0, expect.1));
+            // both solvers (the parallel one with a single real worker: the run is cut at its very first poll)
+            for threads in [None, Some(1)] {
+                let out = run_table(t, &o, &case.solve.cfg, &RunOpts { primals: vec![p1.clone(), p2.clone()], fire_at: Some(1), threads, ..Default::default() });
+                if out.panic.is_some() {
+                    return Verdict::Fail(format!("panic: {:?}", out.panic));
+                }
+                let expect = if p2.0 > p1.0 { &p2 } else { &p1 };
+                if out.best_value != Some(expect.0) || out.best_solution.as_ref().map(|s| sorted(s.clone())) != Some(sorted(expect.1.clone())) {
+                    return Verdict::Fail(format!("{} solver: set_primal({}, s1) then set_primal({}, s2): incumbent is ({:?}, {:?}) but should be ({}, {:?})", if threads.is_some() { "parallel" } else { "sequential" }, p1.0, p2.0, out.best_value, out.best_solution, expect.0, expect.1));
+                }
             }
         }
     }
